@@ -58,6 +58,11 @@ def make_handler(behaviour: str) -> Callable[[], httpseam.Handler]:
                 return httpseam.json_response(500, {})
             if behaviour.startswith("fail:") and path == behaviour[5:]:
                 return httpseam.json_response(500, {})
+            if behaviour.startswith("two_kinds:") and path == behaviour[10:]:
+                # the documented example value fails one way (500), every other input another way (undocumented 418)
+                if ("q", "7") in ex.query:
+                    return httpseam.json_response(500, {})
+                return httpseam.json_response(418, {})
             if behaviour == "fail_get_user" and path.startswith("/users/"):
                 return httpseam.json_response(500, {})
             if path == "/users" and ex.method == "POST":
@@ -125,6 +130,10 @@ def build_body(item: dict) -> tuple[Callable[[sched.Scheduler], engine_sched.Sch
 
             injected_check.__name__ = "injected_check"
             checks = [not_a_server_error, injected_check]
+        if item.get("extra_checks") == "status":
+            from schemathesis.specs.openapi.checks import status_code_conformance
+
+            checks = [*checks, status_code_conformance]
         return engine.make_config(
             phases=item["phases"], workers=item["workers"], max_examples=item.get("max_examples", 1),
             max_failures=item.get("max_failures"), continue_on_failure=item.get("cof", False),
